@@ -139,6 +139,12 @@ def evaluate(ids, checks=None):
                 print("  %s %s exit=%d %s" % (mid, c, rc, viol[0][:160] if viol else ""), flush=True)
         finally:
             sh(["git", "-C", REPO, "checkout", "--", "."])
+        if os.environ.get("SEEDED_MERGE"):
+            # re-evaluation of some checks only: keep the other results (re-read: parallel runners write other ids only)
+            meta = json.load(open(os.path.join(dst, "meta.json")))
+            merged = dict(meta.get("checks", {}))
+            merged.update(res)
+            res = merged
         meta["checks"] = res
         meta["detected_by"] = sorted(c for c, r in res.items() if r["exit"] == 1)
         meta["owner_detects"] = meta["breaks_property"] in meta["detected_by"]
